@@ -216,9 +216,14 @@ func (conn *diskConn) close() []*diskTrack {
 	conn.originLocal = time.Time{}
 	conn.originRemote = 0
 
-	tracks := make([]*diskTrack, 0, len(conn.tracks))
+	// flush every track before closing any writer: flushing a track may
+	// open the file, which creates a writer for every track
 	for _, t := range conn.tracks {
 		t.writeBuffered(true)
+	}
+
+	tracks := make([]*diskTrack, 0, len(conn.tracks))
+	for _, t := range conn.tracks {
 		if t.writer != nil {
 			t.writer.Close()
 			t.writer = nil
